@@ -534,3 +534,50 @@ func TestC07Concurrent(t *testing.T) {
 }
 
 func init() { reg("C07.concurrent", checkC07Conc) }
+
+// ---- numbers of every width under escape ---------------------------------------------------------------------------
+
+type C07NumCase struct {
+	Kind string `json:"kind"`
+	Num  string `json:"num"`
+}
+
+// checkC07Num: a number holds no HTML-significant character, so escaping it changes nothing: the
+// filter, its alias and the apply form print what the print tag prints.
+func checkC07Num(c C07NumCase) error {
+	v, ok := c19WidthValue(c.Kind, c.Num)
+	if !ok {
+		return nil
+	}
+	r := render1("{{ x }}\x1f{{ x|e }}\x1f{{ x|escape }}\x1f{% apply e %}{{ x }}{% endapply %}\x1f{{ [x]|join|e }}", map[string]interface{}{"x": v})
+	if r.Failed() {
+		return fmt.Errorf("x = %s(%s): render failed: %v", c.Kind, c.Num, r)
+	}
+	parts := strings.Split(r.Out, "\x1f")
+	for i, p := range parts[1:] {
+		if p != parts[0] {
+			return fmt.Errorf("x = %s(%s): {{ x }} prints %s, but %s prints %s", c.Kind, c.Num, q(parts[0]), []string{"{{ x|e }}", "{{ x|escape }}", "{% apply e %}{{ x }}{% endapply %}", "{{ [x]|join|e }}"}[i], q(p))
+		}
+	}
+	return nil
+}
+
+func TestC07Numbers(t *testing.T) {
+	r := NewRec(t, "C07", "exhaustive: 13 Go number types x 9 numerals (0, small, 1e20, 1e-7, -3e25, large integers) under e, escape, apply e and after join; oracle: the text the print tag prints (a number has nothing to escape); non-trivial = the type is not int or float64")
+	defer r.Flush()
+	r.SetExhaustive()
+	for _, kind := range []string{"int", "int8", "int16", "int32", "int64", "uint", "uint8", "uint16", "uint32", "uint64", "named", "float32", "float64"} {
+		for _, n := range []string{"0", "7", "-5", "100000000000000000000", "0.0000001", "-30000000000000000000000000", "1.5", "4294967295", "18446744073709551615"} {
+			c := C07NumCase{Kind: kind, Num: n}
+			if _, ok := c19WidthValue(kind, n); !ok {
+				continue
+			}
+			r.Case(kind+n, kind != "int" && kind != "float64", c)
+			if err := checkC07Num(c); err != nil {
+				r.FailEnumKey(t, "C07.num", kind, c, err)
+			}
+		}
+	}
+}
+
+func init() { reg("C07.num", checkC07Num) }
